@@ -683,7 +683,8 @@ func sources(v ssa.Value) map[string]bool {
 				out["call:"+cal.Name()] = true
 				// an unexported module helper: what it returns is part of the slice (with its parameters bound to
 				// this call's arguments)
-				if lastCtx != nil && d < 30 && helperDepth < 3 && len(cal.Blocks) > 0 && cal.Object() != nil && !cal.Object().Exported() && lastCtx.inModule(cal) && !lastCtx.EntShape().isGenerated(cal) {
+				if lastCtx != nil && d < 30 && helperDepth < 3 && len(cal.Blocks) > 0 && cal.Object() != nil && (!cal.Object().Exported() || len(cal.Blocks) <= 6) && lastCtx.inModule(cal) && !lastCtx.EntShape().isGenerated(cal) {
+					// (also a small exported hand-written helper, e.g. a method on an entity: `sub.ExpirationFrom(now)`)
 					bind := map[*ssa.Parameter]ssa.Value{}
 					for i, p := range cal.Params {
 						if i < len(x.Call.Args) {
